@@ -1,7 +1,107 @@
-//! Implementation-side evaluator for the `backoff` correspondence checks (see props/).
+//! Implementation-side evaluator for the `backoff` correspondence checks (props/C07.py):
+//! the real `BackoffIter`, `apply_jitter` and the `retries` deserializer through hook H3.
+//! Durations travel as decimal strings of nanoseconds.
+use nextest_runner::{
+    config::{verif_retry_policy, RetryPolicy},
+    runner::verif_executor,
+};
 use serde_json::{json, Value};
+use std::time::Duration;
+
+fn dur_of(v: &Value) -> Duration {
+    let ns: u128 = match v {
+        Value::String(s) => s.parse().expect("nanoseconds"),
+        other => other.as_u64().expect("nanoseconds") as u128,
+    };
+    Duration::new((ns / 1_000_000_000) as u64, (ns % 1_000_000_000) as u32)
+}
+
+fn ns(d: Duration) -> Value {
+    json!(d.as_nanos().to_string())
+}
+
+fn policy_of(case: &Value) -> RetryPolicy {
+    let count = case["count"].as_u64().expect("count") as usize;
+    let delay = dur_of(&case["delay"]);
+    let jitter = case["jitter"].as_bool().unwrap_or(false);
+    match case["kind"].as_str().expect("kind") {
+        "fixed" => RetryPolicy::Fixed {
+            count,
+            delay,
+            jitter,
+        },
+        "exp" => RetryPolicy::Exponential {
+            count,
+            delay,
+            jitter,
+            max_delay: if case["max_delay"].is_null() {
+                None
+            } else {
+                Some(dur_of(&case["max_delay"]))
+            },
+        },
+        other => panic!("unknown policy kind {other}"),
+    }
+}
+
+fn policy_json(p: RetryPolicy) -> Value {
+    match p {
+        RetryPolicy::Fixed {
+            count,
+            delay,
+            jitter,
+        } => json!(["fixed", count, ns(delay), jitter, Value::Null]),
+        RetryPolicy::Exponential {
+            count,
+            delay,
+            jitter,
+            max_delay,
+        } => json!(["exp", count, ns(delay), jitter, max_delay.map(ns)]),
+    }
+}
 
 pub fn run(case: &Value) -> Value {
-    let _ = case;
-    json!({ "error": "not implemented" })
+    match case["op"].as_str().unwrap_or("") {
+        // BackoffIter::new(policy) followed by `take` calls of next(); null = None
+        "delays" => {
+            let take = case["take"].as_u64().expect("take") as usize;
+            let v: Vec<Value> = verif_executor::backoff_delays(policy_of(case), take)
+                .into_iter()
+                .map(|d| d.map(ns).unwrap_or(Value::Null))
+                .collect();
+            json!({ "count": policy_of(case).count(), "delays": v })
+        }
+        // next_delay_and_jitter `take` times: [[ns, jitter_flag], ...]
+        "base" => {
+            let take = case["take"].as_u64().expect("take") as usize;
+            let v: Vec<Value> = verif_executor::backoff_base_delays(policy_of(case), take)
+                .into_iter()
+                .map(|(d, j)| json!([ns(d), j]))
+                .collect();
+            json!(v)
+        }
+        // apply_jitter(d) n times
+        "jitter" => {
+            let n = case["n"].as_u64().expect("n") as usize;
+            let v: Vec<Value> = verif_executor::jitter_draws(dur_of(&case["delay"]), n)
+                .into_iter()
+                .map(ns)
+                .collect();
+            json!(v)
+        }
+        // deserialize_retry_policy (with validation) on `retries = ...`
+        "parse" => {
+            match verif_retry_policy::parse_retries_toml(case["toml"].as_str().expect("toml")) {
+                Ok(Some(p)) => json!({ "ok": policy_json(p) }),
+                Ok(None) => json!({ "ok": Value::Null }),
+                Err(e) => json!({ "err": e }),
+            }
+        }
+        // what `--retries N` / NEXTEST_RETRIES builds (cargo-nextest: new_without_delay)
+        "cli" => {
+            let n = case["count"].as_u64().expect("count") as usize;
+            json!({ "ok": policy_json(RetryPolicy::new_without_delay(n)) })
+        }
+        other => json!({ "error": format!("unknown op {other}") }),
+    }
 }
